@@ -204,6 +204,15 @@ func (w *world) stepHeight(forceTxs int) {
 		return
 	}
 	qc := w.certify(pr, vs, false)
+	// a second valid certificate for the same block with another signer set: replicas may end up holding
+	// different commit certificates for one height (whoever aggregated it, whenever)
+	var qcAlt *lib.QuorumCertificate
+	if qc != nil && w.slash == nil && t.Chance(1, 3) {
+		qcAlt = w.certify(pr, vs, t.Chance(1, 2))
+		if qcAlt != nil && bytes.Equal(qcAlt.Signature.Bitmap, qc.Signature.Bitmap) {
+			qcAlt = nil
+		}
+	}
 	if qc == nil {
 		c.Logf("h%d: simulator holds keys for less than 2/3 of the committee; stopping", h)
 		c.Probe("committee_keys_below_quorum")
@@ -227,7 +236,12 @@ func (w *world) stepHeight(forceTxs int) {
 			c.Fault("node_misses_block")
 			continue
 		}
-		if w.deliver(n, qc, false, "live") && c.Prop == "C19" && t.Chance(1, 2) {
+		use := qc
+		if qcAlt != nil && t.Chance(1, 2) {
+			use = qcAlt
+			c.Probe("node_holds_alternative_commit_certificate")
+		}
+		if w.deliver(n, use, false, "live") && c.Prop == "C19" && t.Chance(1, 2) {
 			w.corruptBlockMessage(n, qc)
 		}
 	}
